@@ -73,11 +73,15 @@ type call struct {
 	alias  byte   // 'i' in place, 'd' disjoint
 	layout int    // for 'd': 0 separate allocations, 1 one array dst|src, 2 one array src|dst
 	src    []byte // input
-	dst    []byte // initial contents of dst for 'd' (may be longer than src, or shorter: panic class)
+	dst    []byte // 'd': initial contents of dst (may be longer than src, or shorter: panic class);
+	// 'i': the bytes of dst that follow src in the same array (normally none: dst is src)
 }
 
 func (c call) class() string {
 	if c.alias == 'i' {
+		if len(c.dst) > 0 {
+			return "il"
+		}
 		return "i"
 	}
 	switch {
@@ -125,6 +129,9 @@ func genCall(r *hx.Rng, n int, allowShort bool) call {
 	switch r.Intn(8) {
 	case 0, 1, 2:
 		c.alias = 'i'
+		if r.Intn(4) == 0 {
+			c.dst = r.Bytes(1 + r.Intn(20))
+		}
 	case 3, 4, 5:
 		c.alias, c.layout = 'd', r.Intn(3)
 		c.dst = r.Bytes(n)
@@ -154,8 +161,8 @@ func runSeq(o *hx.Out, s *CFB8.CFB8, calls []call, what string) (res []result, p
 		var dst, src, srcCopy []byte
 		switch {
 		case c.alias == 'i':
-			src = append([]byte(nil), c.src...)
-			dst = src
+			back := append(append([]byte(nil), c.src...), c.dst...)
+			src, dst = back[:len(c.src)], back
 		case c.layout == 1:
 			back := make([]byte, len(c.dst)+len(c.src))
 			dst, src = back[:len(c.dst):len(c.dst)], back[len(c.dst):]
@@ -171,8 +178,16 @@ func runSeq(o *hx.Out, s *CFB8.CFB8, calls []call, what string) (res []result, p
 			dst = append([]byte(nil), c.dst...)
 		}
 		srcCopy = append([]byte(nil), src...)
+		iv0, pos0 := s.VerifState()
 		p := hx.Try(func() { s.XORKeyStream(dst, src) })
 		if p != "" {
+			if c.class() == "ds" {
+				// the length check comes first: nothing may have been touched
+				iv1, pos1 := s.VerifState()
+				if !bytes.Equal(iv0, iv1) || pos0 != pos1 || !bytes.Equal(src, srcCopy) || !bytes.Equal(dst, c.dst) {
+					o.Fail("C10.panic-side-effect", "%s call=%d len=%d/%d: refused call changed state or buffers", what, ci, len(c.src), len(c.dst))
+				}
+			}
 			return res, p
 		}
 		if c.alias == 'd' && !bytes.Equal(src, srcCopy) {
@@ -191,7 +206,7 @@ func describe(calls []call) string {
 			sb.WriteByte(',')
 		}
 		fmt.Fprintf(&sb, "%s%d", c.class(), len(c.src))
-		if c.alias == 'd' {
+		if c.alias == 'd' || len(c.dst) > 0 {
 			fmt.Fprintf(&sb, "/%d", len(c.dst))
 		}
 	}
@@ -215,16 +230,16 @@ func checkSeq(o *hx.Out, what string, b cipher.Block, iv []byte, de bool, calls 
 		}
 		in = append(in, c.src...)
 		out := res[i].out
-		want := len(c.src)
+		want, tail := len(c.src)+len(c.dst), c.dst
 		if c.alias == 'd' {
-			want = len(c.dst)
+			want, tail = len(c.dst), c.dst[len(c.src):]
 		}
 		if len(out) != want {
 			o.Fail("C10.dst-length", "%s call=%d", what, i)
 			return
 		}
 		got = append(got, out[:len(c.src)]...)
-		if c.alias == 'd' && !bytes.Equal(out[len(c.src):], c.dst[len(c.src):]) {
+		if !bytes.Equal(out[len(c.src):], tail) {
 			o.Fail("C10.tail-written", "%s de=%v calls=%s call=%d: dst beyond len(src) changed", what, de, describe(calls), i)
 		}
 	}
@@ -247,7 +262,7 @@ func caseLine(de bool, k byte, iv []byte, calls []call) string {
 	fmt.Fprintf(&sb, "seq %d %d %s", d, k, hx.Hex(iv))
 	for _, c := range calls {
 		if c.alias == 'i' {
-			fmt.Fprintf(&sb, " i %s -", hx.Hex(c.src))
+			fmt.Fprintf(&sb, " i %s %s", hx.Hex(c.src), hx.Hex(c.dst))
 		} else {
 			fmt.Fprintf(&sb, " d %s %s", hx.Hex(c.src), hx.Hex(c.dst))
 		}
@@ -434,7 +449,7 @@ func connPair(o *hx.Out, r *hx.Rng, thr int, both bool) (ok bool) {
 	cb.SetCipher(CFB8.NewCFB8Encrypt(blk, key), CFB8.NewCFB8Decrypt(blk, key))
 	ca.SetThreshold(thr)
 	cb.SetThreshold(thr)
-	deadline := time.Now().Add(6 * time.Second)
+	deadline := time.Now().Add(15 * time.Second)
 	a.SetDeadline(deadline)
 	b.SetDeadline(deadline)
 
@@ -594,6 +609,31 @@ func main() {
 		}
 	}
 
+	// thorough only: every pair of call lengths 0..70 x arrangement of the second call x direction
+	if o.Thorough() {
+		for l1 := 0; l1 <= 70; l1++ {
+			for l2 := 0; l2 <= 70; l2++ {
+				for arr := 0; arr < 4; arr++ {
+					d := r.Bool()
+					c1 := genCall(r, l1, false)
+					c2 := call{src: r.Bytes(l2)}
+					switch arr {
+					case 0:
+						c2.alias = 'i'
+					case 1:
+						c2.alias, c2.layout, c2.dst = 'd', 0, r.Bytes(l2)
+					case 2:
+						c2.alias, c2.layout, c2.dst = 'd', 1+r.Intn(2), r.Bytes(l2)
+					default:
+						c2.alias, c2.layout, c2.dst = 'd', r.Intn(3), r.Bytes(l2+1+r.Intn(20))
+					}
+					c3 := call{alias: 'i', src: r.Bytes(34)}
+					toySeq(o, "toy.pairs", d, byte(r.Next()), r.Bytes(16), []call{c1, c2, c3})
+				}
+			}
+		}
+	}
+
 	// random volume
 	for i := 0; i < o.N(1500, 20); i++ {
 		toySeq(o, "toy.random", r.Bool(), byte(r.Next()), r.Bytes(16), randCalls(r, true))
@@ -628,7 +668,7 @@ func main() {
 		if !connPair(o, r, thrs[i%len(thrs)], i%2 == 0) {
 			connFailed++
 		}
-		if connFailed >= 3 { // a broken stream makes a reader wait for its deadline; three reports are enough
+		if connFailed >= 2 { // a broken stream makes a reader wait for its deadline; two reports are enough
 			o.Note("Conn runs stopped after %d failing runs", connFailed)
 			break
 		}
